@@ -159,9 +159,25 @@ fn judge(out: &mut Out, ctx: &Ctx, kind: &str, origin: &str, rd: &dyn TilesReade
 }
 
 /// write with the real writer, re-open with the real reader, compare the advertised pyramid
-fn container_case(out: &mut Out, ctx: &mut Ctx, kind: &str, tiles: &[C], generous: bool) {
-	let (format, comp) = if kind == "mbtiles" { (TileFormat::PBF, TileCompression::Gzip) } else { (TileFormat::JSON, TileCompression::Uncompressed) };
-	let blobs: Vec<(TileCoord3, Blob)> = tiles.iter().map(|c| (TileCoord3::new(c.0, c.1, c.2).unwrap(), compress(Blob::from(payload(c)), &comp).unwrap())).collect();
+fn container_case(out: &mut Out, ctx: &mut Ctx, kind: &str, tiles: &[C], generous: bool, empties: Option<bool>) {
+	// payload class "0 bytes" (checklist 3): the formats that can store a zero-length tile (mbtiles row, tar
+	// member, file) return it on lookup, so it has to lie inside the advertised coverage – here the tiles on
+	// the rim of every level are the empty ones.  (versatiles / pmtiles define length 0 as "no tile": C04.)
+	let empties = matches!(kind, "mbtiles" | "tar" | "dir") && empties.unwrap_or(ctx.n % 3 == 1);
+	let (format, comp) = if kind == "mbtiles" {
+		if empties { (TileFormat::PNG, TileCompression::Uncompressed) } else { (TileFormat::PBF, TileCompression::Gzip) }
+	} else {
+		(TileFormat::JSON, TileCompression::Uncompressed)
+	};
+	let rim = exact_boxes(tiles);
+	let on_rim = |c: &C| rim[c.2 as usize].map_or(false, |(x0, y0, x1, y1)| c.0 == x0 || c.0 == x1 || c.1 == y0 || c.1 == y1);
+	if empties {
+		out.count("containers_with_empty_rim_tiles");
+	}
+	let blobs: Vec<(TileCoord3, Blob)> = tiles
+		.iter()
+		.map(|c| (TileCoord3::new(c.0, c.1, c.2).unwrap(), if empties && on_rim(c) { Blob::from(Vec::<u8>::new()) } else { compress(Blob::from(payload(c)), &comp).unwrap() }))
+		.collect();
 	let mut src = MemSource::new("c03", format, comp, blobs);
 	if generous {
 		let mut p = src.parameters.bbox_pyramid.clone();
@@ -175,7 +191,8 @@ fn container_case(out: &mut Out, ctx: &mut Ctx, kind: &str, tiles: &[C], generou
 		std::fs::create_dir_all(&path).unwrap();
 	}
 	let ps = path.to_str().unwrap().to_string();
-	let line = format!("C03 cov {kind} {} {}", pyr_str(&src_cover), tiles_str(tiles));
+	// kind suffix `0` = the rim tiles of every level are stored with a zero-length payload
+	let line = format!("C03 cov {kind}{} {} {}", if empties { "0" } else { "" }, pyr_str(&src_cover), tiles_str(tiles));
 	// checklist 5: every fourth container is written onto an existing, different container of the same
 	// kind (directories excepted: they merge, see the known finding of C06)
 	if ctx.n % 4 == 0 && kind != "dir" {
@@ -720,7 +737,8 @@ pub fn run(args: &Args) {
 				};
 				let exact = exact_boxes(&tiles);
 				let generous = t[3] != "-" && norm_pyr(&parse_pyr(t[3])) != exact;
-				container_case(&mut out, &mut ctx, t[2], &tiles, generous);
+				let (kind, emp) = match t[2].strip_suffix('0') { Some(k) => (k, true), None => (t[2], false) };
+				container_case(&mut out, &mut ctx, kind, &tiles, generous, Some(emp));
 			} else if t.len() == 4 && t[0] == "C03" && t[1] == "members" {
 				replay_members(&mut out, &mut ctx, t[2], t[3]);
 			} else if t.len() == 3 && t[0] == "C03" && t[1] == "runs" {
@@ -751,7 +769,7 @@ pub fn run(args: &Args) {
 	];
 	for tiles in &fixed {
 		for kind in KINDS {
-			container_case(&mut out, &mut ctx, kind, tiles, false);
+			container_case(&mut out, &mut ctx, kind, tiles, false, None);
 		}
 	}
 	let n = args.n(130, 1500);
@@ -759,7 +777,7 @@ pub fn run(args: &Args) {
 		let tiles = gen_tileset(&mut rng);
 		for kind in KINDS {
 			let generous = kind == "versatiles" && i % 2 == 1;
-			container_case(&mut out, &mut ctx, kind, &tiles, generous);
+			container_case(&mut out, &mut ctx, kind, &tiles, generous, None);
 		}
 	}
 	// spec-valid containers from the independent encoders
